@@ -75,20 +75,20 @@ theorem C02_build_entries {α : Type} (procs : List (Process α)) (m : NameMap) 
     t.jInfo = es.map (·.info) ∧ t.jReactIds = es.flatMap (·.deps) ∧
     t.jProdIds = es.flatMap (fun e => e.prods.map (·.1)) ∧
     t.jYields = es.flatMap (fun e => e.prods.map (·.2)) := by
-  obtain ⟨h1, h2, h3, h4, _⟩ := build_ok procs m t h
+  obtain ⟨h1, h2, h3, h4, _⟩ := jac_build_ok procs m t h
   exact ⟨buildJacobianEntries_WF _ _, h1, h2, h3, h4⟩
 
 /-! ## 2. one entry = one term of the product rule -/
 
 /-- The closed form of the derivative is not ad hoc: it equals the Leibniz recursion, the expanded
     product rule (sum over the positions holding `j` of the product of the other factors), and the
-    evaluation of Mathlib's `MvPolynomial.pderiv` of the monomial `Π X_l`. -/
+    evaluation of Mathlib's `MvPolynomial.pderiv` of the rateMonomial `Π X_l`. -/
 theorem C02_dMonomial_is_derivative {K : Type} [CommRing K] (y : Nat → K) (rs : List Nat) (j : Nat) :
     dMonomial y rs j = dMonomialLeibniz y rs j ∧
     dMonomial y rs j = (((List.range rs.length).filter (fun q => rs[q]? = some j)).map
         (fun q => ((rs.eraseIdx q).map y).prod)).sum ∧
     dMonomial y rs j = MvPolynomial.eval y (MvPolynomial.pderiv j (monomialPoly K rs)) ∧
-    monomial y rs = MvPolynomial.eval y (monomialPoly K rs) :=
+    rateMonomial y rs = MvPolynomial.eval y (monomialPoly K rs) :=
   ⟨dMonomial_eq_leibniz y rs j, dMonomial_eq_pos y rs j, (eval_pderiv_monomialPoly y rs j).symm,
     (eval_monomialPoly y rs).symm⟩
 
@@ -134,8 +134,8 @@ theorem C02_jacobian {K : Type} [CommRing K] (procs : List (Process K)) (m : Nam
             * (rd k pi.2 * dMonomial (rd y) (specReactIds m pi.1.reactants) j)).sum :=
   jacobian_value procs m t hb hk hv hparam p flat hf hinj k y J0 hrange i j q hq
 
-/-- the `[Field K]` reading of `C02_jacobian`, from a zero-filled block: `J = −∂f_i/∂y_j` -/
-theorem C02_jacobian_field {K : Type} [Field K] (procs : List (Process K)) (m : NameMap)
+/-- from a zero-filled block the matrix is `−∂f_i/∂y_j` at every present element -/
+theorem C02_jacobian_zero {K : Type} [CommRing K] (procs : List (Process K)) (m : NameMap)
     (t : PSTables K) (hb : ProcessSet.build procs m = .ok t)
     (hk : (m.map (·.1)).Nodup) (hv : (m.map (·.2)).Nodup)
     (hparam : ∀ p ∈ procs, ∀ r ∈ p.reactants, r.param = true → nmLookup m r.name = none)
@@ -153,6 +153,22 @@ theorem C02_jacobian_field {K : Type} [Field K] (procs : List (Process K)) (m : 
     unfold rd
     by_cases h : q < n <;> simp [Array.getD_eq_getD_getElem?, h]
   rw [this, zero_sub]
+
+/-- the `[Field K]` reading of `C02_jacobian_zero` (a field is a commutative ring; the model's
+    `Add K`, `Mul K`, … instances are the field's) -/
+theorem C02_jacobian_field {K : Type} [Field K] (procs : List (Process K)) (m : NameMap)
+    (t : PSTables K) (hb : ProcessSet.build procs m = .ok t)
+    (hk : (m.map (·.1)).Nodup) (hv : (m.map (·.2)).Nodup)
+    (hparam : ∀ p ∈ procs, ∀ r ∈ p.reactants, r.param = true → nmLookup m r.name = none)
+    (p : Pattern) (flat : List Nat) (hf : t.jacobianFlatIds p = .ok flat)
+    (hinj : ∀ r c r' c' q, p.rank r c = .ok q → p.rank r' c' = .ok q → r = r' ∧ c = c')
+    (k y : Array K) (n : Nat) (hrange : ∀ r c q, p.rank r c = .ok q → q < n)
+    (i j q : Nat) (hq : p.rank i j = .ok q) :
+    rd (t.subtractJacobianCell flat k y (Array.replicate n 0)) q
+      = - (procs.zipIdx.map fun pi =>
+          jacNet (specReactIds m pi.1.reactants) (specProdIds m pi.1.products) i
+            * (rd k pi.2 * dMonomial (rd y) (specReactIds m pi.1.reactants) j)).sum :=
+  C02_jacobian_zero procs m t hb hk hv hparam p flat hf hinj k y n hrange i j q hq
 
 /-! ## 4. the declared pattern is complete; untouched slots are unchanged -/
 
@@ -192,7 +208,8 @@ theorem C02_nonZero_spec {α : Type} (procs : List (Process α)) (m : NameMap) (
     (hb : ProcessSet.build procs m = .ok t) :
     (∀ x : Pair, x ∈ t.nonZeroJacobianElements ↔ ∃ p ∈ procs, x.2 ∈ specReactIds m p.reactants ∧
       (x.1 ∈ specReactIds m p.reactants ∨ x.1 ∈ (specProdIds m p.products).map (·.1))) ∧
-    PairSorted t.nonZeroJacobianElements ∧ t.nonZeroJacobianElements.Nodup :=
+    t.nonZeroJacobianElements.Pairwise (fun a b => pairLt a b = true) ∧
+    t.nonZeroJacobianElements.Nodup :=
   ⟨mem_nonZero_of_build procs m t hb,
     nonZeroGo_sorted _ _ _ _ [] List.Pairwise.nil,
     (nonZeroGo_sorted _ _ _ _ [] List.Pairwise.nil).nodup⟩
@@ -209,68 +226,68 @@ theorem C02_nonZeroGo_spec (rxs : List (List Nat × List Nat)) (r1 r2 : List Nat
 
 section Example
 
-def exProcs (K : Type) [OfNat K 2] [OfNat K 1] : List (Process K) :=
+def c02Procs (K : Type) [OfNat K 2] [OfNat K 1] : List (Process K) :=
   [ { reactants := [⟨"s0", false⟩, ⟨"s0", false⟩, ⟨"s1", false⟩], products := [(⟨"s2", false⟩, 2)] },
     { reactants := [⟨"s2", false⟩], products := [(⟨"s0", false⟩, 1)] } ]
 
-def exMap : NameMap := [("s0", 0), ("s1", 1), ("s2", 2)]
+def c02Map : NameMap := [("s0", 0), ("s1", 1), ("s2", 2)]
 
-def exTables (K : Type) [OfNat K 2] [OfNat K 1] : PSTables K :=
+def c02Tables (K : Type) [OfNat K 2] [OfNat K 1] : PSTables K :=
   { nReact := [3, 1], reactIds := [0, 0, 1, 2], nProd := [1, 1], prodIds := [2, 0], yields := [2, 1],
     jInfo := [⟨0, 0, 2, 1⟩, ⟨0, 0, 2, 1⟩, ⟨0, 1, 2, 1⟩, ⟨1, 2, 0, 1⟩],
     jReactIds := [0, 1, 0, 1, 0, 0], jProdIds := [2, 2, 2, 0], jYields := [2, 2, 2, 1] }
 
 /-- the constructor produces two entries for (reaction 0, s0) -/
-theorem exBuild (K : Type) [OfNat K 2] [OfNat K 1] :
-    ProcessSet.build (exProcs K) exMap = .ok (exTables K) := rfl
+theorem c02Build (K : Type) [OfNat K 2] [OfNat K 1] :
+    ProcessSet.build (c02Procs K) c02Map = .ok (c02Tables K) := rfl
 
 /-- CSR, standard ordering, pattern = declared elements + diagonal (8 of the 9 positions) -/
-def exPattern : Pattern :=
-  Pattern.mk' 3 false 0 (buildJacobianSet 3 (exTables Rat).nonZeroJacobianElements)
+def c02Pattern : Pattern :=
+  Pattern.mk' 3 false 0 (buildJacobianSet 3 (c02Tables Rat).nonZeroJacobianElements)
 
-def exFlatIds : List Nat := [0, 3, 0, 5, 0, 3, 0, 5, 1, 1, 4, 6, 7, 2]
+def c02FlatIds : List Nat := [0, 3, 0, 5, 0, 3, 0, 5, 1, 1, 4, 6, 7, 2]
 
-example : (exTables Rat).nonZeroJacobianElements
+example : (c02Tables Rat).nonZeroJacobianElements
     = [(0, 0), (0, 1), (0, 2), (1, 0), (1, 1), (2, 0), (2, 1), (2, 2)] := by decide +kernel
 
-theorem exFlat' : flatIdsGo exPattern [⟨0, 0, 2, 1⟩, ⟨0, 0, 2, 1⟩, ⟨0, 1, 2, 1⟩, ⟨1, 2, 0, 1⟩]
-    [0, 1, 0, 1, 0, 0] [2, 2, 2, 0] = .ok exFlatIds := by decide +kernel
+theorem c02Flat' : flatIdsGo c02Pattern [⟨0, 0, 2, 1⟩, ⟨0, 0, 2, 1⟩, ⟨0, 1, 2, 1⟩, ⟨1, 2, 0, 1⟩]
+    [0, 1, 0, 1, 0, 0] [2, 2, 2, 0] = .ok c02FlatIds := by decide +kernel
 
-theorem exFlat (K : Type) [OfNat K 2] [OfNat K 1] :
-    (exTables K).jacobianFlatIds exPattern = .ok exFlatIds := exFlat'
+theorem c02Flat (K : Type) [OfNat K 2] [OfNat K 1] :
+    (c02Tables K).jacobianFlatIds c02Pattern = .ok c02FlatIds := c02Flat'
 
 /-- numbers: `k = (3, 5)`, `y = (2, 7, 11)`; e.g. `J[0,0] = 4·k0·y0·y1 = 168` (multiplicity!) -/
-example : ((exTables Rat).subtractJacobianCell exFlatIds #[3, 5] #[2, 7, 11] (Array.replicate 8 0)).toList
+example : ((c02Tables Rat).subtractJacobianCell c02FlatIds #[3, 5] #[2, 7, 11] (Array.replicate 8 0)).toList
     = [168, 24, -5, 84, 12, -168, -24, 5] := by decide +kernel
 
 /-- symbols: the computed block equals the hand-written `−∂f/∂y` of
     `f0 = −2·k0·a²·b + k1·c`, `f1 = −k0·a²·b`, `f2 = 2·k0·a²·b − k1·c`
     at the 8 pattern positions `(0,0) (0,1) (0,2) (1,0) (1,1) (2,0) (2,1) (2,2)` -/
 example {K : Type} [Field K] (k0 k1 a b c : K) :
-    (exTables K).subtractJacobianCell exFlatIds #[k0, k1] #[a, b, c] #[0, 0, 0, 0, 0, 0, 0, 0]
+    (c02Tables K).subtractJacobianCell c02FlatIds #[k0, k1] #[a, b, c] #[0, 0, 0, 0, 0, 0, 0, 0]
       = #[4 * k0 * a * b, 2 * k0 * a * a, -k1, 2 * k0 * a * b, k0 * a * a,
           -(4 * k0 * a * b), -(2 * k0 * a * a), k1] := by
-  simp [PSTables.subtractJacobianCell, exTables, exFlatIds, jacGo, rd, wr]
+  simp [PSTables.subtractJacobianCell, c02Tables, c02FlatIds, jacGo, rd, wr]
   refine ⟨?_, ?_, ?_, ?_, ?_⟩ <;> ring
 
 /-! the hypotheses of `C02_jacobian` are satisfiable on this instance -/
 
-theorem exRank_bound (r c q : Nat) (h : exPattern.rank r c = .ok q) : r < 3 ∧ c < 3 := by
+theorem c02Rank_bound (r c q : Nat) (h : c02Pattern.rank r c = .ok q) : r < 3 ∧ c < 3 := by
   unfold Pattern.rank at h
-  have hs : exPattern.start.size - 1 = 3 := by decide +kernel
+  have hs : c02Pattern.start.size - 1 = 3 := by decide +kernel
   rw [hs] at h
   by_cases hb : (decide (r ≥ 3) || decide (c ≥ 3)) = true
   · simp [hb] at h
   · simp only [Bool.or_eq_true, decide_eq_true_eq, not_or, not_le] at hb
     exact hb
 
-theorem exRank_inj (r c r' c' q : Nat) (h : exPattern.rank r c = .ok q)
-    (h' : exPattern.rank r' c' = .ok q) : r = r' ∧ c = c' := by
-  obtain ⟨h1, h2⟩ := exRank_bound r c q h
-  obtain ⟨h3, h4⟩ := exRank_bound r' c' q h'
+theorem c02Rank_inj (r c r' c' q : Nat) (h : c02Pattern.rank r c = .ok q)
+    (h' : c02Pattern.rank r' c' = .ok q) : r = r' ∧ c = c' := by
+  obtain ⟨h1, h2⟩ := c02Rank_bound r c q h
+  obtain ⟨h3, h4⟩ := c02Rank_bound r' c' q h'
   have key : ∀ a < 9, ∀ b < 9,
-      (exPattern.rank (a / 3) (a % 3)).toOption = (exPattern.rank (b / 3) (b % 3)).toOption →
-      (exPattern.rank (a / 3) (a % 3)).toOption.isSome = true → a = b := by decide +kernel
+      (c02Pattern.rank (a / 3) (a % 3)).toOption = (c02Pattern.rank (b / 3) (b % 3)).toOption →
+      (c02Pattern.rank (a / 3) (a % 3)).toOption.isSome = true → a = b := by decide +kernel
   have e1 : (3 * r + c) / 3 = r := by omega
   have e2 : (3 * r + c) % 3 = c := by omega
   have e3 : (3 * r' + c') / 3 = r' := by omega
@@ -279,9 +296,9 @@ theorem exRank_inj (r c r' c' q : Nat) (h : exPattern.rank r c = .ok q)
     (by rw [e1, e2, e3, e4, h, h']) (by rw [e1, e2, h]; rfl)
   omega
 
-theorem exRank_range (r c q : Nat) (h : exPattern.rank r c = .ok q) : q < 8 := by
-  obtain ⟨h1, h2⟩ := exRank_bound r c q h
-  have key : ∀ r < 3, ∀ c < 3, (exPattern.rank r c).toOption.getD 0 < 8 := by decide +kernel
+theorem c02Rank_range (r c q : Nat) (h : c02Pattern.rank r c = .ok q) : q < 8 := by
+  obtain ⟨h1, h2⟩ := c02Rank_bound r c q h
+  have key : ∀ r < 3, ∀ c < 3, (c02Pattern.rank r c).toOption.getD 0 < 8 := by decide +kernel
   have := key r h1 c h2
   rw [h] at this
   exact this
@@ -289,29 +306,50 @@ theorem exRank_range (r c q : Nat) (h : exPattern.rank r c = .ok q) : q < 8 := b
 /-- `C02_jacobian_field` instantiated: element `(0,0)` of the block (rank 0) is
     `−∂f0/∂y0 = 4·k0·y0·y1`, element `(2,1)` (rank 6) is `−∂f2/∂y1 = −2·k0·y0²` -/
 example {K : Type} [Field K] (k0 k1 a b c : K) :
-    rd ((exTables K).subtractJacobianCell exFlatIds #[k0, k1] #[a, b, c] (Array.replicate 8 0)) 0
+    rd ((c02Tables K).subtractJacobianCell c02FlatIds #[k0, k1] #[a, b, c] (Array.replicate 8 0)) 0
         = 4 * k0 * a * b ∧
-    rd ((exTables K).subtractJacobianCell exFlatIds #[k0, k1] #[a, b, c] (Array.replicate 8 0)) 6
+    rd ((c02Tables K).subtractJacobianCell c02FlatIds #[k0, k1] #[a, b, c] (Array.replicate 8 0)) 6
         = -(2 * k0 * a * a) := by
-  have hparam : ∀ p ∈ exProcs K, ∀ r ∈ p.reactants, r.param = true → nmLookup exMap r.name = none := by
-    simp [exProcs]
-  have h00 : exPattern.rank 0 0 = .ok 0 := by decide +kernel
-  have h21 : exPattern.rank 2 1 = .ok 6 := by decide +kernel
-  have hk : (exMap.map (·.1)).Nodup := by decide
-  have hv : (exMap.map (·.2)).Nodup := by decide
+  have hparam : ∀ p ∈ c02Procs K, ∀ r ∈ p.reactants, r.param = true → nmLookup c02Map r.name = none := by
+    simp [c02Procs]
+  have h00 : c02Pattern.rank 0 0 = .ok 0 := by decide +kernel
+  have h21 : c02Pattern.rank 2 1 = .ok 6 := by decide +kernel
+  have hk : (c02Map.map (·.1)).Nodup := by decide
+  have hv : (c02Map.map (·.2)).Nodup := by decide
   constructor
-  · rw [C02_jacobian_field (exProcs K) exMap (exTables K) (exBuild K) hk hv hparam exPattern exFlatIds
-      (exFlat K) exRank_inj _ _ 8 exRank_range 0 0 0 h00]
-    simp [exProcs, exMap, specReactIds, specProdIds, nmLookup, jacNet, dMonomial, rd]
+  · rw [C02_jacobian_field (c02Procs K) c02Map (c02Tables K) (c02Build K) hk hv hparam c02Pattern c02FlatIds
+      (c02Flat K) c02Rank_inj _ _ 8 c02Rank_range 0 0 0 h00]
+    simp [c02Procs, c02Map, specReactIds, specProdIds, nmLookup, jacNet, dMonomial, rd]
     ring
-  · rw [C02_jacobian_field (exProcs K) exMap (exTables K) (exBuild K) hk hv hparam exPattern exFlatIds
-      (exFlat K) exRank_inj _ _ 8 exRank_range 2 1 6 h21]
-    simp [exProcs, exMap, specReactIds, specProdIds, nmLookup, jacNet, dMonomial, rd]
+  · rw [C02_jacobian_field (c02Procs K) c02Map (c02Tables K) (c02Build K) hk hv hparam c02Pattern c02FlatIds
+      (c02Flat K) c02Rank_inj _ _ 8 c02Rank_range 2 1 6 h21]
+    simp [c02Procs, c02Map, specReactIds, specProdIds, nmLookup, jacNet, dMonomial, rd]
     ring
 
 /-- the closed-form derivative on `A·A·B`: `∂(y0·y0·y1)/∂y0 = 2·y0·y1` -/
 example {K : Type} [Field K] (y : Nat → K) : dMonomial y [0, 0, 1] 0 = 2 * y 0 * y 1 := by
   simp [dMonomial]; ring
+
+/-! The hypothesis `hparam` is necessary (observation about the source, not a model artefact): the
+    outer test of the second constructor loop compares *names* before `IsParameterized()` is
+    consulted, so a parameterized reactant whose name is also a state variable gets an entry.
+    `s0(parameterized) + s1 → s2 ; s0 → s1 + s2` with `s0` in the map: flat ids are computed without
+    error and `J[0,0]` becomes `k0·y1 + k1 = 26` instead of `−∂f0/∂y0 = k1 = 5`.
+    (`SolverBuilder::GetSpeciesMap` never produces such a map: `Phase::UniqueNames` drops
+    parameterized species; it needs a reactant `Species` copy that is parameterized while the
+    phase's species of the same name is not.) -/
+
+def c02BadProcs : List (Process Rat) :=
+  [ { reactants := [⟨"s0", true⟩, ⟨"s1", false⟩], products := [(⟨"s2", false⟩, 1)] },
+    { reactants := [⟨"s0", false⟩], products := [(⟨"s1", false⟩, 1), (⟨"s2", false⟩, 1)] } ]
+
+example :
+    (do let t ← (ProcessSet.build c02BadProcs c02Map).toOption
+        let p := Pattern.mk' 3 false 0 (buildJacobianSet 3 t.nonZeroJacobianElements)
+        let flat ← (t.jacobianFlatIds p).toOption
+        let r ← (p.rank 0 0).toOption
+        pure (rd (t.subtractJacobianCell flat #[3, 5] #[2, 7, 11] (Array.replicate p.nnz 0)) r))
+      = some (26 : Rat) := by decide +kernel
 
 end Example
 
@@ -322,6 +360,7 @@ end Example
 #print axioms C02_dMonomial_is_derivative
 #print axioms C02_entry_is_partial_derivative
 #print axioms C02_jacobian
+#print axioms C02_jacobian_zero
 #print axioms C02_jacobian_field
 #print axioms C02_pattern_complete
 #print axioms C02_flatids_defined
